@@ -51,6 +51,13 @@ def suffixes(agg, cols_after, outputs, keys):
     out.append(("overwrite_outputs", [{"op": "extend", "ops": {o: V(1) for o in outputs}}]))
     if keys:
         out.append(("drop_outputs", [{"op": "select_columns", "columns": list(keys)}]))
+        if agg["op"] == "project":
+            # drop each group key in turn (the SQL translation prunes unused terms: the grouping must survive)
+            for k in keys:
+                rest = [c for c in list(keys) + list(outputs) if c != k]
+                if rest:
+                    out.append(("drop_key_" + k, [{"op": "select_columns", "columns": rest}]))
+                    out.append(("drop_key2_" + k, [{"op": "drop_columns", "columns": [k]}]))
     elif len(outputs) >= 1:
         # no key: overwrite then keep a single constant column
         out.append(("overwrite_then_select", [{"op": "extend", "ops": {"k9": V(1)}}, {"op": "select_columns", "columns": ["k9"]}]))
@@ -108,6 +115,10 @@ def work(prefix_hists, tier, open_ids, part_i=0, part_n=1):
             keys = list(step.get("group_by") or []) if is_project else []
             if is_project and not outputs:
                 sufs = [("none", [])]
+                for k in keys:
+                    rest = [c for c in keys if c != k]
+                    if rest:
+                        sufs.append(("drop_key_" + k, [{"op": "select_columns", "columns": rest}]))
             else:
                 cols_after = None
                 sufs = suffixes(step, cols_after, outputs, keys if is_project else [c for c in pcols if c not in outputs])
